@@ -17,6 +17,23 @@ claim("C02", "DESIGN.md §3 C02",
       "Static analysis decides, on every control-flow path, the acceptance condition of the three verifier entry points and the provenance of what they compare; it does not decide the cryptographic argument. A skipped conjunct on any path (the defect class the property names) is reported with the path.",
       TRUST + "Declined: collision resistance, soundness of the two-tree construction as a cryptographic statement.")
 
+claim("C01", "DESIGN.md §3 C01",
+      "sibling-agreement decision tables + provenance + dominating conditions + locksets over go/ssa (static)",
+      "Static analysis decides the structural agreement between inserter, prover and verifier (hash formulas, audit-path keys, traversal decision tables, balloon glue, hyper batch coordinates, list ownership, hasher locking) on every path of the anchored functions; it does not decide the pruning arithmetic or tree-shape quantification.",
+      TRUST + "Declined: two-target prover traversal vs verifier arithmetic, hyper push-down/collision depths, 'after any number of insertions'.")
+claim("C03", "DESIGN.md §3 C03",
+      "acceptance-condition path enumeration + decision tables + dominating range guards (static)",
+      "Static analysis decides the acceptance condition of the incremental verifier on every path, the wiring of versions/digests, the range guard of QueryConsistency, the prover/verifier traversal agreement as decision tables and the audit-path wire codec; it does not decide rejection for every alternative digest.",
+      TRUST + "Declined: rejection over all forks/histories, the (i,j) arithmetic common to both traversals.")
+claim("C04", "DESIGN.md §3 C04",
+      "provenance conformance of hash construction sites, codec/encoding checks, decision tables, table wiring, buffer-bound and error-path rules (static)",
+      "Static analysis decides that every hash construction site, position encoding, default-hash table, leaf-value preparation, bulk/single agreement (history), freeze rule, cache/table wiring, hyper batch coordinates, list ownership and cache-rebuild read loop conform to the published construction; it does not compare against a reference implementation on values.",
+      TRUST + "Declined: equality with a reference on all sequences, batching-independence of the hyper push-down as a whole, eviction/restart independence as value statements.")
+claim("C10", "DESIGN.md §3 C10",
+      "type-level lockset analysis (guarded-by table, entry locksets over the VTA call graph), unlock-on-all-exits, escape of guarded buffers (static)",
+      "Static analysis decides lock discipline: every access to a guarded field happens under its mutex on every production call path, stateful hashers only under exclusive locks, every lock released on every exit, goroutines joined, cache reads return copies. It does not decide linearizability. The apply-then-persist window (K1) is reported as a known finding.",
+      TRUST + "Locks identified at type level (one instance per node). Declined: 'never mixes state' over all interleavings, race-detector exploration.")
+
 NOT_YET = "check not built yet (static rules for this property are planned in DESIGN.md §3)"
 ALL = ["C%02d" % i for i in range(1, 21)]
 NA = {}
